@@ -9,6 +9,7 @@ import (
 
 	"golang.org/x/tools/go/ssa"
 
+	"redactverif/engine"
 	"redactverif/load"
 	"redactverif/report"
 )
@@ -675,4 +676,149 @@ func ruleC05h(c *Ctx) []*report.Result {
 	}
 	r.Note(fmt.Sprintf("%d dynamic calls of a rendering method examined", n))
 	return []*report.Result{r}
+}
+
+func init() { register("C12.g", ruleC12g) }
+
+// Rule C12.g — every field of the pooled printer has someone answering for it.
+//
+// A printer goes back to the pool and serves another call, possibly of
+// another goroutine. Whatever a field holds then must not depend on the call
+// before. The rules that decide this are field by field: C12.b (override,
+// the %w pair, the buffer, fmt.buf, panicking/erroring at Put and Get), C12.f
+// (the formatter's width and precision), C02.f (its flags). A NEW field — a
+// memo of the last registry lookup, a scratch slice — is covered by none of
+// them. This rule is the exhaustiveness check: each field of the printer
+// struct is (a) assigned on the pool boundary — in the function that hands the
+// printer to the pool or in the one that takes it out, or a helper they call
+// on it —, or (b) the override, whose value at Put is decided by C12.b, or
+// (c) one of fmt's two per-directive scratch flags (`reordered`,
+// `goodArgNum`: doPrintf assigns both at the head of every directive before
+// anything reads them; fmt does not reset them either).
+func ruleC12g(c *Ctx) []*report.Result {
+	r := report.NewResult("C12.g", "every field of the pooled printer is assigned on the pool boundary (by the function that puts it into the pool, the one that takes it out, or a helper they call on it), or is the override (decided at Put by C12.b), or one of fmt's per-directive scratch flags assigned at the head of every directive: no field — in particular none added by the fork — carries a value from one call into the next", 8)
+	rp := c.P.Pkg("internal/rfmt")
+	if rp == nil {
+		r.Undecide("package rfmt not loaded")
+		return []*report.Result{r}
+	}
+	o := rp.Types.Scope().Lookup("pp")
+	if o == nil {
+		r.Undecide("printer type not found")
+		return []*report.Result{r}
+	}
+	st, ok := o.Type().Underlying().(*types.Struct)
+	if !ok {
+		r.Undecide("printer type is not a struct")
+		return []*report.Result{r}
+	}
+	// the pool boundary: functions of rfmt that call (*sync.Pool).Put / Get with a printer
+	var boundary []*ssa.Function
+	for _, fn := range c.P.ModuleFunctions() {
+		if pkgPathOf(fn) != pkgRfmt || fn.Blocks == nil {
+			continue
+		}
+		for _, b := range fn.Blocks {
+			for _, ins := range b.Instrs {
+				if ci, ok := ins.(ssa.CallInstruction); ok {
+					if f := ci.Common().StaticCallee(); f != nil && (f.String() == "(*sync.Pool).Put" || f.String() == "(*sync.Pool).Get") {
+						boundary = append(boundary, fn)
+					}
+				}
+			}
+		}
+	}
+	if len(boundary) < 2 {
+		r.Undecide(fmt.Sprintf("found %d functions on the pool boundary (want the one that puts and the one that gets)", len(boundary)))
+		return []*report.Result{r}
+	}
+	assigned := map[int]string{}
+	var scan func(fn *ssa.Function, root ssa.Value, depth int)
+	scan = func(fn *ssa.Function, root ssa.Value, depth int) {
+		if depth > 3 {
+			return
+		}
+		for _, b := range fn.Blocks {
+			for _, ins := range b.Instrs {
+				switch x := ins.(type) {
+				case *ssa.Store:
+					// p.F = ..., or a store below p.F (p.F.G = ...) does not count: only the whole field
+					if fa, ok := x.Addr.(*ssa.FieldAddr); ok && isPP(fa.X.Type()) && (root == nil || derivesFrom(fa.X, root)) {
+						if _, had := assigned[fa.Field]; !had {
+							assigned[fa.Field] = shortFn(fn.String())
+						}
+					}
+				case ssa.CallInstruction:
+					g := x.Common().StaticCallee()
+					if g == nil || len(x.Common().Args) == 0 {
+						continue
+					}
+					// a method called on a field of the printer (p.buf.Reset(), p.fmt.init(...)) re-initialises that field
+					recv := x.Common().Args[0]
+					for {
+						inner, ok := recv.(*ssa.FieldAddr)
+						if !ok {
+							break
+						}
+						if isPP(inner.X.Type()) {
+							if g.Signature.Recv() != nil && (g.Name() == "Reset" || g.Name() == "init") {
+								if _, had := assigned[inner.Field]; !had {
+									assigned[inner.Field] = shortFn(fn.String()) + " via " + g.Name()
+								}
+							}
+							break
+						}
+						recv = inner.X
+					}
+					// a helper of the printer called on it
+					if c.P.InModule(g) && g.Blocks != nil && isPP(x.Common().Args[0].Type()) && g != fn {
+						scan(g, g.Params[0], depth+1)
+					}
+				}
+			}
+		}
+	}
+	for _, fn := range boundary {
+		scan(fn, nil, 0)
+	}
+	for i := 0; i < st.NumFields(); i++ {
+		f := st.Field(i)
+		construct := "rfmt.pp." + f.Name()
+		switch {
+		case assigned[i] != "":
+			r.Ok(construct + ": assigned on the pool boundary in " + assigned[i])
+		case engine.FieldName(f) == "override":
+			r.Ok(construct + ": its value at Put is decided by C12.b")
+		case f.Name() == "reordered" || f.Name() == "goodArgNum":
+			r.Ok(construct + ": fmt's per-directive scratch flag, assigned at the head of every directive")
+		default:
+			r.Fail(construct, c.P.Pos(f.Pos()), "nothing on the pool boundary assigns this field of the printer: what one call leaves in it is what the next call — of any goroutine — finds (a cache that outlives the registration it memoised, a scratch value that steers a later rendering)", nil, "")
+		}
+	}
+	return []*report.Result{r}
+}
+
+func isPP(t types.Type) bool {
+	p, ok := t.Underlying().(*types.Pointer)
+	return ok && namedOf(p.Elem()) == tPP
+}
+
+// derivesFrom: v is root, possibly through type assertions, conversions and phis.
+func derivesFrom(v, root ssa.Value) bool {
+	for i := 0; i < 6; i++ {
+		if v == root {
+			return true
+		}
+		switch x := v.(type) {
+		case *ssa.TypeAssert:
+			v = x.X
+		case *ssa.ChangeType:
+			v = x.X
+		case *ssa.Extract:
+			v = x.Tuple
+		default:
+			return false
+		}
+	}
+	return false
 }
